@@ -74,7 +74,8 @@ def run_case(case):
     res.count("C05.kind." + case["kind"])
     if err is not None:
         res["aborted"] = err
-        res.violate("C05", "C05/exception-from-simulate:%s:%s" % (err["type"], err["where"]),
+        nested = any(c["children"] for c in spec["comps"])
+        res.violate("C05", "C05/exception-from-simulate:%s:%s%s" % (err["type"], err["where"], ":nested-product" if nested else ""),
                     "simulate() raised %s: %s (%s)" % (err["type"], err["msg"], err["where"]), stack=err["stack"])
         return res
     p = m.project
